@@ -130,7 +130,8 @@ def model_part(v, tier, invariants, clauses, props, seed_off=0, stop=None, shape
     if quick:
         insts = AM.spread(insts, 2, 8)
     consts = {"StopCycle": stop or 2}
-    tot = AM.run_model(v, Mgm2Binding(), insts, consts, invariants + STRUCT, clauses, props, max_paths=500 if quick else None)
+    tot = AM.run_model(v, Mgm2Binding(), insts, consts, invariants + STRUCT, clauses, props, max_paths=500 if quick else None,
+                       edges_for=(lambda i: True) if quick else (lambda i: AM.weight(i) <= 200))
     if regen:
         fname, inv, sc = regen
         d = json.load(open(VERIF / "findings" / fname))
